@@ -502,12 +502,13 @@ def in_flight_region(S, D):
                 present = X.zbool(els[i][1]) if i < len(els) else z3.BoolVal(False)
                 kept.append(z3.Implies(g, present == z3.Or(all_done, z3.Not(done[i]))))
         n_rec = z3.Sum([z3.If(g, 1, 0) for g, v in recorded]) if recorded else z3.IntVal(0)
-        prove(S, ids[0], E, [], z3.And(n_push == want_push, *shape, *order, n_ins == z3.If(has, 1, 0), *kept,
+        incr = [uid[i].t < uid[i + 1].t for i in range(N - 1)]          # in-flight updates are listed in the order their ids were handed out
+        prove(S, ids[0], E, incr, z3.And(n_push == want_push, *shape, *order, n_ins == z3.If(has, 1, 0), *kept,
                                        n_rec == z3.If(z3.And(has, z3.Not(all_done)), 1, 0), *[z3.Implies(g, X.zint(v.t) == hi) for g, v in recorded],
                                        is_invalid == z3.And(has, dup_entry)),
               'for a funded channel read back with N in-flight monitor updates: if the loaded monitor contains them all, one MonitorUpdatesComplete covering the highest in-flight id is queued and the list is kept until that event is processed; otherwise exactly the updates the monitor lacks are replayed (MonitorUpdateRegeneratedOnStartup, once each, in list order) and stay in flight while the others are dropped, and the highest id is recorded',
-              bounds='region of from_channel_manager_data through one expansion of handle_in_flight_updates!, %d in-flight updates with arbitrary ids, real closures; maps / logging stubbed' % N)
+              bounds='region of from_channel_manager_data through one expansion of handle_in_flight_updates!, %d in-flight updates with arbitrary increasing ids, real closures; maps / logging stubbed' % N)
         top = z3.If(has, z3.If(hi > latest.t, hi, latest.t), latest.t)
         prove(S, ids[1], E, [z3.Not(z3.And(has, dup_entry))], z3.And(is_danger == (unblocked.t > top), is_ok_ == z3.Not(unblocked.t > top)),
               'the manager refuses to load (DangerousValue) exactly when its channel is ahead of everything its monitor can be brought to - the monitor\'s latest id and the highest in-flight update - and loads otherwise')
-        S.witness(ids[2], E, [has] + ([z3.Not(all_done)] if N else []), is_ok_)
+        S.witness(ids[2], E, incr + [has] + ([z3.Not(all_done)] if N else []), is_ok_)
